@@ -20,6 +20,9 @@
 //        {"a":"Empty"} | {"a":"Assign"},{"a":"Update"},{"a":"Get"}]}
 //        the calls of a TLC-generated history made one after the other by a single thread, then the
 //        same final call(s).
+//        steps {"a":"Burst","arg":{"n":256}} / {"a":"BurstPush","arg":{"p":1,"n":256}}: n real calls, logged as ONE
+//        record {"op":"burst"|"bpush","first":..,"n":..} whose window spans all of them.
+//   {"id":n,"kind":"burst",...}: concurrent scenario with long bursts between two consumer polls (see burstVal / burstBuf)
 // output line: {"id":n,"calls":[{"t":thread,"op":..,"inv":stamp,"res":stamp, arguments, results}, ...]}
 //              {"id":n,"timeout":true}   (watchdog; the process then exits with code 94)
 //
@@ -109,8 +112,8 @@ struct Codec<std::string>
 
 // ---------------------------------------------------------------------------
 // call records (per-thread logs, no sharing)
-enum Op { PUSH, CONSUME, SIZE, EMPTY, ASSIGN, UPDATE, GET };
-static const char *opName[] = {"push", "consume", "size", "empty", "assign", "update", "get"};
+enum Op { PUSH, CONSUME, SIZE, EMPTY, ASSIGN, UPDATE, GET, BPUSH, BURST };
+static const char *opName[] = {"push", "consume", "size", "empty", "assign", "update", "get", "bpush", "burst"};
 
 struct Call
 {
@@ -142,9 +145,25 @@ static Json toJson(const Call &c)
     break;
   }
   case CONSUME: {
-    Json b = Json::array();
-    for (auto &e : c.batch) { Json v = Json::array(); v.push(e.first); v.push(e.second); b.push(v); }
-    j.set("batch", b);
+    if (c.batch.size() <= 64) {
+      Json b = Json::array();
+      for (auto &e : c.batch) { Json v = Json::array(); v.push(e.first); v.push(e.second); b.push(v); }
+      j.set("batch", b);
+    } else {
+      // long batches are written as runs [p, s_lo, s_hi] = elements <<p,s_lo>>, <<p,s_lo+1>>, ..., <<p,s_hi>> in this
+      // order (lossless run-length form of the same sequence; a single element is a run of length one)
+      Json rs = Json::array();
+      size_t i = 0;
+      while (i < c.batch.size()) {
+        size_t k = i;
+        while (k + 1 < c.batch.size() && c.batch[k + 1].first == c.batch[i].first && c.batch[k + 1].second == c.batch[k].second + 1) ++k;
+        Json r = Json::array();
+        r.push(c.batch[i].first); r.push(c.batch[i].second); r.push(c.batch[k].second);
+        rs.push(r);
+        i = k + 1;
+      }
+      j.set("runs", rs);
+    }
     break;
   }
   case SIZE: j.set("n", c.n); break;
@@ -152,6 +171,8 @@ static Json toJson(const Call &c)
   case ASSIGN: j.set("v", c.v); break;
   case UPDATE: j.set("ret", c.b); break;
   case GET: j.set("v", c.v); j.set("ref", c.viaRef); break;
+  case BPUSH: j.set("p", c.p); j.set("first", c.s); j.set("n", c.n); break;   // n push_backs of <<p,first>>, <<p,first+1>>, ...
+  case BURST: j.set("first", c.v); j.set("n", c.n); break;                    // n assignments of first, first+1, ...
   }
   return j;
 }
@@ -244,6 +265,34 @@ static void doGet(rkcommon::utility::TransactionalValue<T> &tv, Log &log, int t,
   T x = viaRef ? tv.ref() : tv.get();
   c.res = stamp();
   c.v = Codec<T>::unvalue(x);
+  log.push_back(c);
+}
+
+// A burst: n real calls by one thread, logged as ONE record whose window spans all of them
+// (invocation stamp before the first call, response stamp after the last).
+template <typename T>
+static void doBurstPush(rkcommon::containers::TransactionalBuffer<T> &buf, Log &log, int t, int p, int first, long n)
+{
+  Call c; c.t = t; c.op = BPUSH; c.p = p; c.s = first; c.n = n;
+  c.inv = stamp();
+  for (long i = 0; i < n; ++i) {
+    T x = Codec<T>::elem(p, first + (int)i);
+    if (i & 1) buf.push_back(std::move(x)); else buf.push_back(x);
+  }
+  c.res = stamp();
+  log.push_back(c);
+}
+
+template <typename T>
+static void doBurstAssign(rkcommon::utility::TransactionalValue<T> &tv, Log &log, int t, int first, long n)
+{
+  Call c; c.t = t; c.op = BURST; c.v = first; c.n = n;
+  c.inv = stamp();
+  for (long i = 0; i < n; ++i) {
+    T x = Codec<T>::value(first + (int)i);
+    tv = x;
+  }
+  c.res = stamp();
   log.push_back(c);
 }
 
@@ -360,6 +409,163 @@ static Json concVal(const Json &sc)
 }
 
 // ---------------------------------------------------------------------------
+// concurrent scenarios with long bursts between two consumer polls
+//   {"kind":"burst","obj":"val"|"buf","payload":..,"phases":[{"a":3},{"b":256,"wait":true},...],"M":10,"P":1|2,"K":4,..}
+// The (first) producer thread runs the phases: {"a":k} = k single calls, each logged; {"b":n,"wait":w} = a burst of
+// n calls logged as one record.  Before a burst the producer asks the consumer thread to pause and waits for the
+// acknowledgement, after it it releases the consumer (generation counters, no sleeping): no consumer call overlaps
+// the burst.  With "wait" the producer then makes no further call until the consumer has completed one more poll
+// round (update()+get(), resp. size()+consume()+empty()) - the producer "stops at the boundary" for that poll.
+struct BurstCtl
+{
+  std::atomic<long> reqGen{0}, ackGen{0}, relGen{0}, polls{0};
+  std::atomic<bool> pollWanted{false}, pdone{false}, go{false};
+  std::atomic<int> ready{0};
+};
+
+static inline void consumerPausePoint(BurstCtl &ctl)
+{
+  long g = ctl.reqGen.load();
+  if (g != ctl.relGen.load()) {
+    ctl.ackGen.store(g);
+    while (ctl.relGen.load() != g) std::this_thread::yield();
+  }
+}
+
+template <typename BURST, typename SINGLE>
+static void runPhases(const Json &phases, BurstCtl &ctl, std::mt19937 &r, int pj, BURST burst, SINGLE single)
+{
+  for (size_t i = 0; i < phases.size(); ++i) {
+    const Json &ph = phases[i];
+    if (ph.has("a")) {
+      long k = (long)ph["a"].num();
+      for (long j = 0; j < k; ++j) { jitter(r, pj); single(); }
+    } else {
+      long n = (long)ph["b"].num();
+      long g = ctl.reqGen.fetch_add(1) + 1;
+      while (ctl.ackGen.load() != g) std::this_thread::yield();     // the consumer is between two calls and stays there
+      long target = ctl.polls.load() + 1;
+      burst(n);
+      const bool wait = ph["wait"].boolean();
+      if (wait) ctl.pollWanted.store(true);
+      ctl.relGen.store(g);
+      if (wait) {
+        while (ctl.polls.load() < target) std::this_thread::yield();
+        ctl.pollWanted.store(false);
+      }
+    }
+  }
+}
+
+template <typename T>
+static Json burstVal(const Json &sc)
+{
+  const int M = (int)sc["M"].num(), pj = (int)sc["pj"].num(), cj = (int)sc["cj"].num();
+  const unsigned seed = (unsigned)sc["seed"].num();
+  typedef rkcommon::utility::TransactionalValue<T> TV;
+  TV tv(Codec<T>::value(0));
+  std::vector<Log> logs(3);
+  BurstCtl ctl;
+  std::thread prod([&]() {
+    std::mt19937 r(seed * 7919u + 1u);
+    Log &log = logs[1];
+    int next = 0;
+    ctl.ready.fetch_add(1);
+    while (!ctl.go.load()) std::this_thread::yield();
+    runPhases(sc["phases"], ctl, r, pj,
+              [&](long n) { doBurstAssign(tv, log, 1, next + 1, n); next += (int)n; },
+              [&]() { doAssign(tv, log, 1, ++next); });
+    ctl.pdone.store(true);
+  });
+  std::thread cons([&]() {
+    std::mt19937 r(seed * 7919u);
+    Log &log = logs[0];
+    int rounds = 0;
+    ctl.ready.fetch_add(1);
+    while (!ctl.go.load()) std::this_thread::yield();
+    for (;;) {
+      consumerPausePoint(ctl);
+      if (ctl.pdone.load()) break;
+      if (rounds < M || ctl.pollWanted.load()) {
+        jitter(r, cj);
+        doUpdate(tv, log, 0);
+        doGet(tv, log, 0, (r() & 3u) == 0);
+        ++rounds;
+        ctl.polls.fetch_add(1);
+      } else std::this_thread::yield();
+    }
+  });
+  while (ctl.ready.load() < 2) std::this_thread::yield();
+  ctl.go.store(true);
+  prod.join();
+  cons.join();
+  Log &fin = logs[2];
+  doUpdate(tv, fin, 0);
+  doGet(tv, fin, 0, false);
+  return dumpLogs(logs);
+}
+
+template <typename T>
+static Json burstBuf(const Json &sc)
+{
+  const int M = (int)sc["M"].num(), pj = (int)sc["pj"].num(), cj = (int)sc["cj"].num();
+  const int P = (int)sc["P"].num(), K = (int)sc["K"].num();
+  const unsigned seed = (unsigned)sc["seed"].num();
+  rkcommon::containers::TransactionalBuffer<T> buf;
+  std::vector<Log> logs(P + 2);
+  BurstCtl ctl;
+  std::vector<std::thread> th;
+  th.emplace_back([&]() {
+    std::mt19937 r(seed * 7919u + 1u);
+    Log &log = logs[1];
+    int next = 0;
+    ctl.ready.fetch_add(1);
+    while (!ctl.go.load()) std::this_thread::yield();
+    runPhases(sc["phases"], ctl, r, pj,
+              [&](long n) { doBurstPush(buf, log, 1, 1, next + 1, n); next += (int)n; },
+              [&]() { ++next; doPush(buf, log, 1, 1, next, (r() & 1u) != 0); });
+    ctl.pdone.store(true);
+  });
+  for (int p = 2; p <= P; ++p) {
+    th.emplace_back([&, p]() {
+      std::mt19937 r(seed * 7919u + (unsigned)p);
+      Log &log = logs[p];
+      ctl.ready.fetch_add(1);
+      while (!ctl.go.load()) std::this_thread::yield();
+      for (int s = 1; s <= K; ++s) { jitter(r, pj); doPush(buf, log, p, p, s, (r() & 1u) != 0); }
+    });
+  }
+  std::thread cons([&]() {
+    std::mt19937 r(seed * 7919u);
+    Log &log = logs[0];
+    int rounds = 0;
+    ctl.ready.fetch_add(1);
+    while (!ctl.go.load()) std::this_thread::yield();
+    for (;;) {
+      consumerPausePoint(ctl);
+      if (ctl.pdone.load()) break;
+      if (rounds < M || ctl.pollWanted.load()) {
+        jitter(r, cj);
+        doSize(buf, log, 0);
+        doConsume(buf, log, 0);
+        doEmpty(buf, log, 0);
+        ++rounds;
+        ctl.polls.fetch_add(1);
+      } else std::this_thread::yield();
+    }
+  });
+  while (ctl.ready.load() < P + 1) std::this_thread::yield();
+  ctl.go.store(true);
+  for (auto &t : th) t.join();
+  cons.join();
+  Log &fin = logs[P + 1];
+  doConsume(buf, fin, 0);
+  doSize(buf, fin, 0);
+  doEmpty(buf, fin, 0);
+  return dumpLogs(logs);
+}
+
+// ---------------------------------------------------------------------------
 // sequential histories generated by TLC
 template <typename T>
 static Json seqBuf(const Json &sc)
@@ -374,6 +580,11 @@ static Json seqBuf(const Json &sc)
     if (a == "Push") {
       int p = (int)h[i]["arg"]["p"].num();
       doPush(buf, log, p, p, ++next[p & 15], h[i]["arg"]["mv"].boolean());
+    } else if (a == "BurstPush") {
+      int p = (int)h[i]["arg"]["p"].num();
+      long n = (long)h[i]["arg"]["n"].num();
+      doBurstPush(buf, log, p, p, next[p & 15] + 1, n);
+      next[p & 15] += (int)n;
     } else if (a == "Consume") doConsume(buf, log, 0);
     else if (a == "Size") doSize(buf, log, 0);
     else if (a == "Empty") doEmpty(buf, log, 0);
@@ -395,6 +606,11 @@ static Json seqVal(const Json &sc)
   for (size_t i = 0; i < h.size(); ++i) {
     const std::string &a = h[i]["a"].str();
     if (a == "Assign") doAssign(tv, log, 1, ++next);
+    else if (a == "Burst") {
+      long n = (long)h[i]["arg"]["n"].num();
+      doBurstAssign(tv, log, 1, next + 1, n);
+      next += (int)n;
+    }
     else if (a == "Update") doUpdate(tv, log, 0);
     else if (a == "Get") doGet(tv, log, 0, h[i]["arg"]["ref"].boolean());
   }
@@ -457,6 +673,8 @@ int main(int argc, char **argv)
     Json calls;
     if (kind == "conc" && obj == "buf") calls = str ? concBuf<std::string>(sc) : concBuf<IntElem>(sc);
     else if (kind == "conc" && obj == "val") calls = str ? concVal<std::string>(sc) : concVal<int>(sc);
+    else if (kind == "burst" && obj == "buf") calls = str ? burstBuf<std::string>(sc) : burstBuf<IntElem>(sc);
+    else if (kind == "burst" && obj == "val") calls = str ? burstVal<std::string>(sc) : burstVal<int>(sc);
     else if (kind == "seq" && obj == "buf") calls = str ? seqBuf<std::string>(sc) : seqBuf<IntElem>(sc);
     else if (kind == "seq" && obj == "val") calls = str ? seqVal<std::string>(sc) : seqVal<int>(sc);
     else { fprintf(stderr, "unknown scenario %s/%s\n", kind.c_str(), obj.c_str()); return 2; }
